@@ -16,5 +16,22 @@ theorem lsmtk_default_policy :
       | .ok (.versions n) => n == 1
       | _ => false) = true := by decide
 
+/-- C05: WHERE lsmtk reaches its collector, read from lsmtk/src/tree/mod.rs on every run:
+    `Compaction::top_level` is `self.core.upper_level == NUM_LEVELS - 1` (first flag), and
+    `Tree::perform_compaction` first routes a one-input compaction to `apply_moving_compaction`,
+    then has `if compaction.top_level() { return self.perform_garbage_collection(compaction); }`,
+    the only place in the crate that names `perform_garbage_collection` besides its definition
+    (second flag).  A changed shape regenerates a 0 (or no constant at all) and this fails. -/
+theorem gc_only_at_top_level_from_source :
+    Blue.Generated.lsmtkTopLevelIsLastLevel = 1 ∧ Blue.Generated.lsmtkGcOnlyAtTopLevel = 1 := by decide
+/-- C05: `NUM_LEVELS` (the tree models of C01/C20 are parametric in `t.length`; there is no model
+    constant to compare with, so the value is stated) -/
+theorem num_levels_from_source : Blue.Generated.lsmtkNumLevels = 16 := by decide
+/-- C05: `NUM_LEVELS - 1` does not wrap, so the Rust test `upper_level == NUM_LEVELS - 1` is the
+    model's side condition `upper + 1 = NUM_LEVELS` -/
+theorem top_level_test_from_source (upper : Nat) :
+    (upper == Blue.Generated.lsmtkNumLevels - 1) = true ↔ upper + 1 = Blue.Generated.lsmtkNumLevels := by
+  have h : Blue.Generated.lsmtkNumLevels = 16 := by decide
+  rw [h]; simp only [beq_iff_eq]; omega
 
 end Blue.ConstsTie
